@@ -1078,6 +1078,10 @@ w('C15', 'TotalBondedTokens answers a constant for an empty height (no store rea
   ('x/opchild/keeper/host_validator_store.go', 'func (hv HostValidatorStore) TotalBondedTokens(ctx context.Context) (math.Int, error) {\n', 'func (hv HostValidatorStore) TotalBondedTokens(ctx context.Context) (math.Int, error) {\n\tif hv.consensusAddressCodec == nil {\n\t\treturn math.OneInt(), nil\n\t}\n'))
 w('C10', 'exported deposit counter read raw from the store, error ignored (0 for a bridge without deposits)', 'C10.R7',
   (HG, '\t\tnextL1Sequence, err := k.GetNextL1Sequence(ctx, bridgeId)\n\t\tif err != nil {\n\t\t\treturn true, err\n\t\t}\n', '\t\tnextL1Sequence, _ := k.NextL1Sequences.Get(ctx, bridgeId)\n'))
+w('C07', 'hook tx runs although the ante decorators rejected it (badly signed hook executes)', 'C07.R12',
+  ('x/opchild/keeper/deposit.go', '\tctx, err = k.decorators(ctx, tx, false)\n\tif err != nil {', '\tctx, err = k.decorators(ctx, tx, false)\n\tif err != nil && len(data) == 0 {'))
+w('C07', 'hook payload decode error ignored unless the payload is empty', 'C07.R12',
+  ('x/opchild/keeper/deposit.go', '\ttx, err := k.txDecoder(data)\n\tif err != nil {', '\ttx, err := k.txDecoder(data)\n\tif err != nil && len(data) == 0 {'))
 # wave g
 wseed('C01g','C01.R4'); wseed('C02g','C02.R1'); wseed('C03g','C03.R6'); wseed('C04g','C04.R6'); wseed('C05g','C05.R8')
 wseed('C06g','C06.R1'); wseed('C07g','C07.R3'); wseed('C08g','C08.R1'); wseed('C09g','C09.R6'); wseed('C10g','C10.R7')
